@@ -147,10 +147,61 @@ def cases(tier, seed):
             spec["include"] = {"kind": "list", "names": []}      # an EMPTY include list selects no glyph at all
         out.append({"cid": f"c14-{seed}-p{k}", "lib": rng2.choice(["ufoLib2", "defcon"]), "filter": spec, "steps": steps,
                     "interp": False, "again": False})
+    # one filter object with an include / exclude specification shared by all masters of an interpolatable pre-processor run
+    # (the `filters` argument of the compile functions)
+    rng6 = random.Random(seed * 104729 + 140015)
+    P = 1024
+    for k in range(12 if tier == "quick" else 150):
+        def sq(x, y, w, h):
+            return [[x * P, y * P, "line"], [(x + w) * P, y * P, "line"], [(x + w) * P, (y + h) * P, "line"], [x * P, (y + h) * P, "line"]]
+
+        masters = []
+        for j in range(2 + k % 2):
+            d = 4 * j
+            g = {"a": {"cs": [sq(0, 0, 100 + d, 200)], "comps": [], "anchors": [], "w": 300 * P, "h": 0, "u": []},
+                 "b": {"cs": [], "comps": [{"b": "a", "m": [64, 0, 0, 64], "d": [(10 + d) * P, 0]}], "anchors": [], "w": 300 * P, "h": 0, "u": []},
+                 "c": {"cs": [], "comps": [{"b": "a", "m": [-64, 0, 0, 64], "d": [(200 + d) * P, 0]}, {"b": "a", "m": [64, 0, 0, 64], "d": [0, (250 + d) * P]}],
+                       "anchors": [], "w": 400 * P, "h": 0, "u": []},
+                 "e": {"cs": [], "comps": [{"b": "b", "m": [64, 0, 0, 64], "d": [(5 + d) * P, 5 * P]}], "anchors": [], "w": 300 * P, "h": 0, "u": []},
+                 "f": {"cs": [], "comps": [{"b": "e", "m": [64, 0, 0, 64], "d": [0, (20 + d) * P]}, {"b": "c", "m": [64, 0, 0, 64], "d": [500 * P, 0]}],
+                       "anchors": [], "w": 900 * P, "h": 0, "u": []}}
+            masters.append(g)
+        kind = ["DecomposeComponents", "FlattenComponents", "DecomposeTransformedComponents"][k % 3]
+        inc = [{"kind": "list", "names": ["b"]}, {"kind": "list", "names": ["e"]}, {"kind": "exclude", "names": ["c", "f"]},
+               {"kind": "list", "names": ["c", "f"]}, {"kind": "pred", "pred": "wide"}, {"kind": "list", "names": []}][k % 6]
+        out.append({"cid": f"c14-{seed}-sh{k}", "shared": True, "lib": rng6.choice(["ufoLib2", "defcon"]), "filter": {"name": kind, "include": inc},
+                    "masters": masters})
     return out
 
 
+def _execute_shared(case):
+    """ONE filter object (with an include / exclude specification) handed to an interpolatable pre-processor through the
+    `filters` argument: it serves every master; only included glyphs change.  The families are straight-line, never mixed,
+    with equal 2x2 everywhere and reverseDirection off, so the custom filter is the only stage that changes anything."""
+    from ufo2ft.preProcessor import OTFInterpolatablePreProcessor, TTFInterpolatablePreProcessor
+
+    from .. import absfont
+
+    spec = case["filter"]
+    fonts = [absfont.build_font({"glyphs": m, "info": {"unitsPerEm": 1000}}, case["lib"]) for m in case["masters"]]
+    befores = [absfont.abs_glyphset({g.name: g for g in f}) for f in fonts]
+    flt = fc.make_filter(spec)
+    flt.pre = True
+    names = set()
+    for f in fonts:
+        names |= set(fc.included_names(spec, {g.name: g for g in f}))
+    pp = TTFInterpolatablePreProcessor(fonts, filters=[flt], reverseDirection=False, convertCubics=True)
+    gss = pp.process()
+    afters = [absfont.abs_glyphset(gs) for gs in gss]
+    changed = sorted({n for b, a in zip(befores, afters) for n in b if a.get(n) != b[n]})
+    return [{"tid": case["cid"], "filter": spec["name"], "sep": True, "lib": case["lib"], "inc": sorted(names),
+             "masters": [{"before": b, "after": a} for b, a in zip(befores, afters)], "modified": changed, "opt": {},
+             "srcSame": True, "_sig": [case["cid"]]}]
+
+
 def execute(case):
+    if case.get("shared"):
+        return _execute_shared(case)
     if case.get("interp"):
         return fc.invoke_ihistory(case)
     return fc.invoke_history(case)
